@@ -638,6 +638,26 @@ fn c01_ops(ctx: &Ctx) -> Collector {
             slot.end();
             col.count("extra_evaluations", 1);
         }
+        // raw pairs on a coarse grid of latitude codes (multiples of 2^12: the poles - even 0 with
+        // odd 98304 / 32768 - the equator and the quarter points are on it), both orders
+        if u == 0 {
+            for ka in 0..32u32 {
+                for kc in 0..32u32 {
+                    for &b in &[0u32, 65536, 12345] {
+                        for &d in &[0u32, 65536, 99999] {
+                            for (f1, f2) in [(CPRFormat::Even, CPRFormat::Odd), (CPRFormat::Odd, CPRFormat::Even)] {
+                                let x = Altitude { odd_flag: f1, lat_cpr: ka * 4096, lon_cpr: b, ..Altitude::default() };
+                                let y = Altitude { odd_flag: f2, lat_cpr: kc * 4096, lon_cpr: d, ..Altitude::default() };
+                                col.count("position_pairs", 1);
+                                if let Err((loc, msg)) = mon::guarded(|| rcpr::get_position((&x, &y))) {
+                                    col.add(fnd("C01", "panic_get_position", &loc, format!("{msg}: pair {x:?} / {y:?}"), json!({"pair": [ka * 4096, b, kc * 4096, d]})));
+                                }
+                            }
+                        }
+                    }
+                }
+            }
+        }
         // raw pairs at the numeric edges
         let e = [0u32, 1, 65535, 65536, 65537, 131070, 131071];
         for &a in &e {
